@@ -73,11 +73,17 @@ def check_cut(data, cut, blocked, ipm_encoding=None):
 def _check_cut(data, cut, blocked, ipm_encoding, part, src):
     payload = refvbs.payload_of(part) if blocked else part
     want, ending, _ = refvbs.complete_records(payload)
-    if ipm_encoding:
-        reader = mciipm.IpmReader(src, encoding=ipm_encoding, blocked=blocked)
+    try:
+        if ipm_encoding:
+            reader = mciipm.IpmReader(src, encoding=ipm_encoding, blocked=blocked)
+        else:
+            reader = mciipm.VbsReader(src, blocked=blocked)
+    except mciipm.MciIpmDataError:
+        got, how = [], 'data-error'          # refused on opening: nothing was delivered
+    except Exception as ex:  # noqa
+        got, how = [], ex
     else:
-        reader = mciipm.VbsReader(src, blocked=blocked)
-    got, how = read_all(reader, len(want) + 2)
+        got, how = read_all(reader, len(want) + 2)
     form = ('ipm-' if ipm_encoding else 'vbs-') + ('1014' if blocked else 'plain')
     if not isinstance(src, (Pipe, io.BytesIO)):
         form += ':os-file(name=%s)' % type(getattr(src, 'name', None)).__name__
